@@ -433,3 +433,383 @@ Proof.
   intros a b s Ha Hb. destruct (NoDup_keys_in fst _ a b H Ha Hb) as [->|N]; [reflexivity|].
   apply upd_comm. congruence.
 Qed.
+
+(** * schemahcl/context.go *)
+
+(* bodyVars: the slice itself follows the iteration order; it is a permutation *)
+Theorem bodyVars_perm {T : Type} (attrs attrs' : list (bytes * list T)) :
+  Permutation attrs attrs' -> Permutation (bodyVars attrs) (bodyVars attrs').
+Proof. apply flat_map_perm. Qed.
+
+Theorem bodyVars_order_leaks :
+  exists attrs attrs' : list (bytes * list nat),
+    Permutation attrs attrs' /\ NoDup (map fst attrs) /\ bodyVars attrs <> bodyVars attrs'.
+Proof.
+  exists [([97%N], [1]); ([98%N], [2])], [([98%N], [2]); ([97%N], [1])].
+  split; [apply perm_swap|]. split; [|vm_compute; discriminate].
+  constructor; [simpl; intros [E|[]]; discriminate|]. constructor; [intros []|constructor].
+Qed.
+
+(* typeRefs is only asked whether some reference matches *)
+Theorem typeRefs_exists_perm {T : Type} (isroot matches : T -> bool) (attrs attrs' : list (bytes * list T)) :
+  Permutation attrs attrs' -> typeRefs_exists isroot matches attrs = typeRefs_exists isroot matches attrs'.
+Proof.
+  intros P. unfold typeRefs_exists, typeRefs. apply existsb_perm, filter_perm, bodyVars_perm, P.
+Qed.
+
+Section EvalProofs.
+  Variables (Ctx Node Val : Type).
+
+  (* PARTIAL: [visit] (the memoising DFS with cycle detection and the expression evaluator) is not
+     modelled; what is assumed of it is the premise [visit_comm]: visiting two different nodes in
+     either order fails in both orders or reaches the same context. *)
+  Theorem evalReferences_nodes_perm_partial (referenced : Node -> bool) (visit : Ctx -> Node -> option Ctx)
+    (visit_comm : forall a b c, bindo (visit c a) (fun c' => visit c' b) = bindo (visit c b) (fun c' => visit c' a))
+    (nodes nodes' : list (bytes * Node)) :
+    Permutation nodes nodes' ->
+    forall c, evalReferences_nodes Ctx Node referenced visit nodes c = evalReferences_nodes Ctx Node referenced visit nodes' c.
+  Proof.
+    intros P. unfold evalReferences_nodes. apply foldM_perm; [exact P|].
+    intros a b c _ _. destruct (referenced (snd a)) eqn:Ra, (referenced (snd b)) eqn:Rb; simpl; rewrite ?Ra, ?Rb.
+    - apply visit_comm.
+    - destruct (visit c (snd a)); simpl; rewrite ?Rb; reflexivity.
+    - destruct (visit c (snd b)); simpl; rewrite ?Ra; reflexivity.
+    - reflexivity.
+  Qed.
+
+  Theorem EvalOptions_metaBlocks_perm_partial (forEachFile : Ctx -> bytes * Node -> option Ctx)
+    (step_comm : forall a b c, fst a <> fst b ->
+       bindo (forEachFile c a) (fun c' => forEachFile c' b) = bindo (forEachFile c b) (fun c' => forEachFile c' a))
+    (m m' : list (bytes * Node)) :
+    Permutation m m' -> NoDup (map fst m) ->
+    forall c, EvalOptions_metaBlocks Ctx Node forEachFile m c = EvalOptions_metaBlocks Ctx Node forEachFile m' c.
+  Proof.
+    intros P H. unfold EvalOptions_metaBlocks. apply foldM_perm; [exact P|].
+    intros a b c Ha Hb. destruct (NoDup_keys_in fst _ a b H Ha Hb) as [->|N]; [reflexivity|]. apply step_comm, N.
+  Qed.
+
+  Variable blockVal : bytes -> Node -> option Val.
+
+  Lemma blockVars_step_comm a b s : fst a <> fst b ->
+    bindo (blockVars_step Node Val blockVal s a) (fun s' => blockVars_step Node Val blockVal s' b)
+    = bindo (blockVars_step Node Val blockVal s b) (fun s' => blockVars_step Node Val blockVal s' a).
+  Proof.
+    intros N. unfold blockVars_step.
+    destruct (blockVal (fst a) (snd a)) as [va|] eqn:Ea, (blockVal (fst b) (snd b)) as [vb|] eqn:Eb;
+      simpl; rewrite ?Ea, ?Eb; try reflexivity.
+    rewrite (binsert_comm fst); [reflexivity|simpl; congruence].
+  Qed.
+
+  Theorem blockVars_perm (children children' : list (bytes * Node)) :
+    Permutation children children' -> NoDup (map fst children) ->
+    blockVars Node Val blockVal children = blockVars Node Val blockVal children'.
+  Proof.
+    intros P H. unfold blockVars. apply foldM_perm; [exact P|].
+    intros a b s Ha Hb. destruct (NoDup_keys_in fst _ a b H Ha Hb) as [->|N]; [reflexivity|].
+    apply blockVars_step_comm, N.
+  Qed.
+
+  Theorem copyBlock_attrs_perm (attrs attrs' : list (bytes * Node)) :
+    Permutation attrs attrs' -> NoDup (map fst attrs) ->
+    copyBlock_attrs Node Val blockVal attrs = copyBlock_attrs Node Val blockVal attrs'.
+  Proof. apply blockVars_perm. Qed.
+
+  Variable attrVal : bytes -> Node -> attr_res Val.
+
+  Definition attr_err (e : bytes * Node) : bool :=
+    match attrVal (fst e) (snd e) with AErr _ => true | _ => false end.
+  Definition attr_vals (e : bytes * Node) : list (bytes * Val) :=
+    match attrVal (fst e) (snd e) with AVal _ v => [(fst e, v)] | _ => [] end.
+
+  Lemma toAttrs_foldM l : forall acc,
+    foldM (toAttrs_step Node Val attrVal) l acc
+    = if existsb attr_err l then None else Some (acc ++ flat_map attr_vals l).
+  Proof.
+    induction l as [|e l IH]; intros acc; simpl; [rewrite app_nil_r; reflexivity|].
+    unfold toAttrs_step at 1, attr_err at 1, attr_vals at 1.
+    destruct (attrVal (fst e) (snd e)); simpl; [reflexivity|apply IH|].
+    rewrite IH. rewrite <- app_assoc. reflexivity.
+  Qed.
+
+  Lemma attr_vals_keys l : NoDup (map fst l) -> NoDup (map fst (flat_map attr_vals l)).
+  Proof.
+    induction l as [|e l IH]; simpl; intros H; [constructor|]. inversion H as [|? ? Hn Hd]; subst.
+    unfold attr_vals at 1. destruct (attrVal (fst e) (snd e)); simpl; auto.
+    constructor; [|auto]. intros Hin. apply Hn. apply in_map_iff in Hin as [x [E Hx]].
+    apply in_flat_map in Hx as [y [Hy Hxy]]. unfold attr_vals in Hxy.
+    destruct (attrVal (fst y) (snd y)); simpl in Hxy; try contradiction.
+    destruct Hxy as [<-|[]]. simpl in E. rewrite <- E. apply in_map. exact Hy.
+  Qed.
+
+  (* State.toAttrs: sorted by K after the loop *)
+  Theorem toAttrs_perm (hclAttrs hclAttrs' : list (bytes * Node)) :
+    Permutation hclAttrs hclAttrs' -> NoDup (map fst hclAttrs) ->
+    toAttrs Node Val attrVal hclAttrs = toAttrs Node Val attrVal hclAttrs'.
+  Proof.
+    intros P H. unfold toAttrs. rewrite !toAttrs_foldM, (existsb_perm _ _ _ P).
+    destruct (existsb attr_err hclAttrs'); simpl; [reflexivity|]. f_equal. apply bsort_eq.
+    - apply flat_map_perm, P.
+    - apply attr_vals_keys, H.
+  Qed.
+End EvalProofs.
+
+(** ** State.EvalOptions #1: the order of the files decides whether a cross-file local resolves *)
+Definition ex_a : bytes := [97%N].
+Definition ex_b : bytes := [98%N].
+Definition ex_x : bytes := [120%N].
+Definition ex_y : bytes := [121%N].
+
+Theorem EvalOptions_files_order_matters :
+  exists files files' : list hclfile,
+    Permutation files files' /\ NoDup (map fst files) /\
+    EvalOptions_files files <> EvalOptions_files files'.
+Proof.
+  exists [(ex_a, ([ex_x], [])); (ex_b, ([ex_y], [ex_x]))], [(ex_b, ([ex_y], [ex_x])); (ex_a, ([ex_x], []))].
+  split; [apply perm_swap|]. split; [|vm_compute; discriminate].
+  constructor; [simpl; intros [E|[]]; discriminate|]. constructor; [intros []|constructor].
+Qed.
+
+Lemma evalfile_noref l : Forall (fun f : hclfile => snd (snd f) = []) l ->
+  forall ctx, exists ctx', foldM evalfile_step l ctx = Some ctx'.
+Proof.
+  induction 1 as [|f l Hf _ IH]; intros ctx; simpl; [eauto|].
+  unfold evalfile_step. rewrite Hf. simpl. apply IH.
+Qed.
+
+(* exact characterisation proved here: without references between the locals of different files
+   the result (sorted file names, no error) is the same for every order *)
+Theorem EvalOptions_files_perm_except (files files' : list hclfile) :
+  Permutation files files' -> NoDup (map fst files) ->
+  Forall (fun f : hclfile => snd (snd f) = []) files ->
+  EvalOptions_files files = EvalOptions_files files'.
+Proof.
+  intros P H F. unfold EvalOptions_files.
+  destruct (evalfile_noref files F []) as [c ->].
+  destruct (evalfile_noref files' (Permutation_Forall P F) []) as [c' ->].
+  f_equal. apply bsort_eq; [apply Permutation_map, P|]. rewrite map_id. exact H.
+Qed.
+
+(** * schemahcl/extension.go *)
+
+Lemma SetAttr_fresh {V : Type} (a : bytes * V) attrs :
+  ~ In (fst a) (map fst attrs) -> SetAttr a attrs = attrs ++ [a].
+Proof.
+  induction attrs as [|b r IH]; simpl; intros H; [reflexivity|].
+  destruct (bytes_eqb (fst a) (fst b)) eqn:E.
+  - apply bytes_eqb_eq in E. exfalso. apply H. left. congruence.
+  - f_equal. apply IH. intros Hin. apply H. right. exact Hin.
+Qed.
+
+(* Resource.as #1: the remainder lists the unknown attributes in iteration order, verbatim *)
+Theorem as_extra_attrs_is_iteration_order {V : Type} (l : list (bytes * V)) : forall extra,
+  NoDup (map fst (extra ++ l)) -> as_extra_attrs l extra = extra ++ l.
+Proof.
+  unfold as_extra_attrs. induction l as [|a l IH]; intros extra H; simpl; [rewrite app_nil_r; reflexivity|].
+  rewrite SetAttr_fresh.
+  - rewrite IH; rewrite <- app_assoc; [reflexivity|exact H].
+  - rewrite map_app in H. simpl in H. apply NoDup_remove_2 in H. intros Hin. apply H. apply in_or_app. left. exact Hin.
+Qed.
+
+Theorem as_extra_attrs_perm_except {V : Type} (l l' extra : list (bytes * V)) :
+  Permutation l l' -> NoDup (map fst (extra ++ l)) ->
+  Permutation (as_extra_attrs l extra) (as_extra_attrs l' extra)
+  /\ byKeys (as_extra_attrs l extra) = byKeys (as_extra_attrs l' extra).
+Proof.
+  intros P H.
+  assert (H' : NoDup (map fst (extra ++ l'))).
+  { eapply NoDup_map_perm; [apply Permutation_app_head; exact P|exact H]. }
+  rewrite !as_extra_attrs_is_iteration_order by assumption.
+  split; [apply Permutation_app_head, P|]. apply byKeys_perm; [apply Permutation_app_head, P|exact H].
+Qed.
+
+Theorem as_extra_attrs_order_leaks :
+  exists l l' : list (bytes * nat),
+    Permutation l l' /\ NoDup (map fst l) /\ as_extra_attrs l [] <> as_extra_attrs l' [].
+Proof.
+  exists [(ex_a, 1); (ex_b, 2)], [(ex_b, 2); (ex_a, 1)].
+  split; [apply perm_swap|]. split; [|vm_compute; discriminate].
+  constructor; [simpl; intros [E|[]]; discriminate|]. constructor; [intros []|constructor].
+Qed.
+
+Lemma as_extra_children_eq {C : Type} (ctype : C -> bytes) children (l : list (bytes * unit)) : forall extra,
+  as_extra_children ctype children l extra
+  = extra ++ flat_map (fun t => childrenOfType ctype children [fst t]) l.
+Proof.
+  unfold as_extra_children. induction l as [|t l IH]; intros extra; simpl; [rewrite app_nil_r; reflexivity|].
+  rewrite IH, <- app_assoc. reflexivity.
+Qed.
+
+(* Resource.as #2: blocks of unknown types are appended type by type, in iteration order *)
+Theorem as_extra_children_perm_except {C : Type} (ctype : C -> bytes) children (l l' : list (bytes * unit)) extra :
+  Permutation l l' ->
+  Permutation (as_extra_children ctype children l extra) (as_extra_children ctype children l' extra).
+Proof. intros P. rewrite !as_extra_children_eq. apply Permutation_app_head, flat_map_perm, P. Qed.
+
+Theorem as_extra_children_order_leaks :
+  exists (children : list bytes) (l l' : list (bytes * unit)),
+    Permutation l l' /\ NoDup (map fst l) /\
+    as_extra_children (fun c => c) children l [] <> as_extra_children (fun c => c) children l' [].
+Proof.
+  exists [ex_a; ex_b], [(ex_a, tt); (ex_b, tt)], [(ex_b, tt); (ex_a, tt)].
+  split; [apply perm_swap|]. split; [|vm_compute; discriminate].
+  constructor; [simpl; intros [E|[]]; discriminate|]. constructor; [intros []|constructor].
+Qed.
+
+(* registry.implementers feeds childrenOfType only: which children are selected, and in which
+   order, does not depend on the order of the names *)
+Lemma const_map_perm {A B : Type} (c : B) (l l' : list A) :
+  Permutation l l' -> map (fun _ => c) l = map (fun _ => c) l'.
+Proof. induction 1; simpl; congruence. Qed.
+
+Lemma childrenOfType_inner {C : Type} (ctype : C -> bytes) (c : C) types :
+  flat_map (fun t => if bytes_eqb (ctype c) t then [c] else []) types
+  = map (fun _ => c) (filter (bytes_eqb (ctype c)) types).
+Proof.
+  induction types as [|t r IH]; simpl; [reflexivity|].
+  destruct (bytes_eqb (ctype c) t); simpl; rewrite IH; reflexivity.
+Qed.
+
+Lemma childrenOfType_perm {C : Type} (ctype : C -> bytes) children types types' :
+  Permutation types types' -> childrenOfType ctype children types = childrenOfType ctype children types'.
+Proof.
+  intros P. unfold childrenOfType. induction children as [|c r IH]; simpl; [reflexivity|].
+  rewrite IH. f_equal. rewrite !childrenOfType_inner. apply const_map_perm, filter_perm, P.
+Qed.
+
+Theorem implementers_children_perm {T C : Type} (implements : T -> bool) (ctype : C -> bytes) children
+  (r r' : list (bytes * T)) :
+  Permutation r r' ->
+  implementers_children implements ctype children r = implementers_children implements ctype children r'.
+Proof.
+  intros P. unfold implementers_children, implementers.
+  apply childrenOfType_perm, Permutation_map, filter_perm, P.
+Qed.
+
+(* registry.lookup: the first entry of the same Go type *)
+Theorem lookup_perm_except {T : Type} (same : T -> bool) (r r' : list (bytes * T)) :
+  Permutation r r' ->
+  (forall a b, In a r -> In b r -> same (snd a) = true -> same (snd b) = true -> a = b) ->
+  lookup same r = lookup same r'.
+Proof.
+  intros P U. unfold lookup.
+  destruct (find (fun e => same (snd e)) r) as [e|] eqn:E, (find (fun e => same (snd e)) r') as [e'|] eqn:E'; simpl.
+  - apply find_some in E as [He Se]. apply find_some in E' as [He' Se'].
+    f_equal. f_equal. apply U; try assumption. eapply Permutation_in; [apply Permutation_sym; exact P|exact He'].
+  - apply find_some in E as [He Se]. pose proof (find_none _ _ E' e (Permutation_in _ P He)) as F.
+    simpl in F. congruence.
+  - apply find_some in E' as [He' Se'].
+    pose proof (find_none _ _ E e' (Permutation_in _ (Permutation_sym P) He')) as F. simpl in F. congruence.
+  - reflexivity.
+Qed.
+
+(* two names registered for one Go type -- as sqlspec does: "view"/"materialized" -> *View,
+   "function"/"procedure" -> *Func *)
+Theorem lookup_order_matters :
+  exists r r' : list (bytes * nat),
+    Permutation r r' /\ NoDup (map fst r) /\ lookup (Nat.eqb 7) r <> lookup (Nat.eqb 7) r'.
+Proof.
+  exists [(ex_a, 7); (ex_b, 7)], [(ex_b, 7); (ex_a, 7)].
+  split; [apply perm_swap|]. split; [|vm_compute; discriminate].
+  constructor; [simpl; intros [E|[]]; discriminate|]. constructor; [intros []|constructor].
+Qed.
+
+(** * sql/internal/specutil *)
+
+Section SpecutilProofs.
+  Variables (Obj Payload : Type).
+  Variable link_ok : nat * Payload -> bool.
+  Variable link : Payload -> Obj -> Obj.
+
+  (* Scan #1 (linkForeignKeys per table) and #2 (fromDependsOn per object) *)
+  Theorem Scan_link_perm objs (m m' : list (nat * Payload)) :
+    Permutation m m' -> NoDup (map fst m) ->
+    Scan_link Obj Payload link_ok link objs m = Scan_link Obj Payload link_ok link objs m'.
+  Proof.
+    intros P H. unfold Scan_link. rewrite !foldM_checked, (forallb_perm _ _ _ P).
+    destruct (forallb link_ok m'); [|reflexivity]. f_equal. apply fold_left_perm; [exact P|].
+    intros a b s Ha Hb. destruct (NoDup_keys_in fst _ a b H Ha Hb) as [->|N]; [reflexivity|].
+    apply upd_comm. congruence.
+  Qed.
+
+  (* PARTIAL: the effect of one (schema, objects) bucket is abstract; premise [bucket_comm]:
+     two different buckets commute (they qualify disjoint sets of objects and add to a set). *)
+  Variables (QSt Bucket : Type).
+  Variable qualify_bucket : QSt -> nat * Bucket -> QSt.
+  Hypothesis bucket_comm : forall a b s, qualify_bucket (qualify_bucket s a) b = qualify_bucket (qualify_bucket s b) a.
+
+  Lemma qual_inner_perm v v' st : Permutation v v' ->
+    qual_inner QSt Bucket qualify_bucket v st = qual_inner QSt Bucket qualify_bucket v' st.
+  Proof. intros P. unfold qual_inner. apply fold_left_perm; [exact P|]. intros; apply bucket_comm. Qed.
+
+  Lemma qual_inner_comm v w st :
+    qual_inner QSt Bucket qualify_bucket w (qual_inner QSt Bucket qualify_bucket v st)
+    = qual_inner QSt Bucket qualify_bucket v (qual_inner QSt Bucket qualify_bucket w st).
+  Proof.
+    unfold qual_inner. rewrite <- !fold_left_app. apply fold_left_perm; [apply Permutation_app_comm|].
+    intros; apply bucket_comm.
+  Qed.
+
+  Lemma qual_outer_comm a b st :
+    qual_outer QSt Bucket qualify_bucket (qual_outer QSt Bucket qualify_bucket st a) b
+    = qual_outer QSt Bucket qualify_bucket (qual_outer QSt Bucket qualify_bucket st b) a.
+  Proof.
+    unfold qual_outer.
+    destruct (snd a) as [|a1 [|a2 ar]], (snd b) as [|b1 [|b2 br]]; try reflexivity; apply qual_inner_comm.
+  Qed.
+
+  Theorem QualifyObjects_outer_perm_partial (byLabel byLabel' : list (nat * list (nat * Bucket))) st :
+    Permutation byLabel byLabel' ->
+    QualifyObjects QSt Bucket qualify_bucket byLabel st = QualifyObjects QSt Bucket qualify_bucket byLabel' st.
+  Proof.
+    intros P. unfold QualifyObjects. apply fold_left_perm; [exact P|]. intros; apply qual_outer_comm.
+  Qed.
+
+  Theorem QualifyObjects_inner_perm_partial (l : nat) (v v' : list (nat * Bucket)) st :
+    Permutation v v' ->
+    qual_outer QSt Bucket qualify_bucket st (l, v) = qual_outer QSt Bucket qualify_bucket st (l, v').
+  Proof.
+    intros P. unfold qual_outer; simpl. pose proof (Permutation_length P) as L.
+    destruct v as [|x [|y r]], v' as [|x' [|y' r']]; simpl in L; try discriminate; try reflexivity;
+      exact (qual_inner_perm _ _ st P).
+  Qed.
+End SpecutilProofs.
+
+(** * sql/postgres *)
+
+Lemma addIndexes_eq {V : Type} (m : list (bytes * V)) : forall attrs, addIndexes_constraints attrs m = attrs ++ m.
+Proof.
+  unfold addIndexes_constraints. induction m as [|c m IH]; intros attrs; simpl; [rewrite app_nil_r; reflexivity|].
+  rewrite IH, <- app_assoc. reflexivity.
+Qed.
+
+(* inspect.addIndexes: the Constraint attributes of an index follow the iteration order; the same
+   list for at most one constraint per index (what PostgreSQL produces), a permutation otherwise *)
+Theorem addIndexes_constraints_perm_except {V : Type} (attrs m m' : list (bytes * V)) :
+  Permutation m m' ->
+  Permutation (addIndexes_constraints attrs m) (addIndexes_constraints attrs m')
+  /\ (length m <= 1 -> addIndexes_constraints attrs m = addIndexes_constraints attrs m').
+Proof.
+  intros P. rewrite !addIndexes_eq. split; [apply Permutation_app_head, P|].
+  intros L. f_equal. destruct m as [|a [|b r]]; simpl in L; try lia.
+  - apply Permutation_nil in P. congruence.
+  - apply Permutation_length_1_inv in P. congruence.
+Qed.
+
+Theorem addIndexes_constraints_order_leaks :
+  exists m m' : list (bytes * nat),
+    Permutation m m' /\ NoDup (map fst m) /\ addIndexes_constraints [] m <> addIndexes_constraints [] m'.
+Proof.
+  exists [(ex_a, 1); (ex_b, 2)], [(ex_b, 2); (ex_a, 1)].
+  split; [apply perm_swap|]. split; [|vm_compute; discriminate].
+  constructor; [simpl; intros [E|[]]; discriminate|]. constructor; [intros []|constructor].
+Qed.
+
+Theorem alterEnum_check_perm toV (fromV fromV' : list (bytes * nat)) :
+  Permutation fromV fromV' -> alterEnum_check toV fromV = alterEnum_check toV fromV'.
+Proof.
+  intros P. unfold alterEnum_check. rewrite !foldM_checked, (forallb_perm _ _ _ P).
+  destruct (forallb _ fromV'); [|reflexivity]. f_equal.
+  clear P. generalize tt. induction fromV as [|? ? IH]; intros u; simpl.
+  - induction fromV' as [|? ? IH']; simpl; auto.
+  - apply IH.
+Qed.
